@@ -68,10 +68,16 @@ Proof.
   destruct (Z.ltb_spec (lastRecv d) p) as [Hlt|Hge]; cbn; crush.
 Qed.
 
+Lemma good_refresh : good_region (true, [IRefresh]).
+Proof.
+  split; [reflexivity|]. split; [discriminate|]. intros g m d l f HP. cbn.
+  pose proof (P_Claim _ _ _ HP) as HC. split; [exact HC|]. split; [apply HP|]. now apply Claim_P_boot.
+Qed.
+
 Lemma good_compile o : op_ok o -> Forall good_region (compile true o).
 Proof.
-  destruct o as [a|a|th|p]; cbn; intros Hok; repeat apply Forall_cons; try apply Forall_nil;
-    auto using good_putR, good_putT, good_loadbal, good_issue, good_recv.
+  destruct o as [a|a|th|p|]; cbn; intros Hok; repeat apply Forall_cons; try apply Forall_nil;
+    auto using good_putR, good_putT, good_loadbal, good_issue, good_recv, good_refresh.
 Qed.
 
 Lemma good_flat_map ops : Forall op_ok ops -> Forall good_region (flat_map (compile true) ops).
@@ -217,4 +223,20 @@ Definition d_zero : dsk := {| s_rT := 0; s_tT := 0; lastSend := 0; lastRecv := 0
 Lemma old_code_refuted :
   let s := exec (boot false d_zero (ghost0 (restore d_zero)) old_witness_progs) old_witness_sched in
   doneR (gh s) = 20 /\ rT (restore (disk s)) = 10.
+Proof. vm_compute. split; reflexivity. Qed.
+
+(** * a refresh that reads the stored total before taking the peer lock loses a concurrent update *)
+Definition refresh_witness_progs : list (list op) := [[Refresh]; [PutR 10; PutR 5]].
+Definition refresh_witness_sched : list nat := [0;0; 1;1;1;1; 0;0; 1;1;1;1]%nat.
+(* pre-fix compile only differs for PutR/PutT/Refresh; use the fixed PutR with the early-read Refresh *)
+Definition mk_thread_mixed (ops : list op) : thread :=
+  {| cur := []; inlock := false;
+     todo := flat_map (fun o => match o with Refresh => compile false Refresh | _ => compile true o end) ops;
+     loc := 0; flag := false |}.
+Definition refresh_s0 : state :=
+  {| mem := restore d_zero; disk := d_zero; lock := None; thr := map mk_thread_mixed refresh_witness_progs;
+     gh := ghost0 (restore d_zero); committed := restore d_zero |}.
+Lemma early_read_refresh_refuted :
+  let s := exec refresh_s0 refresh_witness_sched in
+  doneR (gh s) = 15 /\ rT (restore (disk s)) = 5.
 Proof. vm_compute. split; reflexivity. Qed.
